@@ -481,8 +481,9 @@ def _target_worker(args):
     mod = __import__(modname)
     try:
         targets, in_dim, findings = mod.build_targets(case, res, conv)
-    except EncoderError as e:
-        return {"id": case["id"], "error": str(e)}
+    except Exception as e:
+        import traceback
+        return {"id": case["id"], "error": "%s: %s" % (e, traceback.format_exc()[-600:])}
     so = solve_targets(targets, conv, in_dim, want_points=want_points, canary=canary) if targets else {
         "cands": [], "undecided": [], "points": [], "canary": None, "pieces": 0, "stats": (0, 0, 0, 0.0, [])}
     so["id"] = case["id"]
